@@ -936,17 +936,28 @@ func (ex *Exec) atReturn(f *Frame, st *State, ret *ssa.Return, res []Val) {
 		if c.Trusted {
 			continue
 		}
+		lbl := c.Label
+		if lbl == "" {
+			lbl = fmt.Sprint(k + 1)
+		}
 		t, err := ec.formula(c.Src)
 		if err != nil && c.Optional {
-			continue // speaks about a local that does not exist (or has another type) on this path
+			// The clause speaks about a local that does not exist (or has another
+			// type) on this path. For "A ==> B" with A evaluable this path must
+			// then not satisfy A: returning successfully before the values that
+			// justify the success even exist (a check moved below an early return)
+			// is a violation, not a reason to skip the clause.
+			if parts := splitOp(c.Src, "==>"); len(parts) == 2 {
+				if a, err2 := ec.formula(parts[0]); err2 == nil {
+					ex.oblige(f, st, "ensures", fmt.Sprintf("%s#ensures#%s", ex.name, lbl), mkNot(a), ret.Pos(),
+						c.Src+"   [the consequent's values do not exist on this path: its antecedent must be false here]")
+				}
+			}
+			continue
 		}
 		if err != nil {
 			ex.aborted = fmt.Sprintf("contract error (%s): %v", c.Line, err)
 			return
-		}
-		lbl := c.Label
-		if lbl == "" {
-			lbl = fmt.Sprint(k + 1)
 		}
 		ex.oblige(f, st, "ensures", fmt.Sprintf("%s#ensures#%s", ex.name, lbl), t, ret.Pos(), c.Src)
 	}
